@@ -590,6 +590,13 @@ impl Check for AddrCheck {
                 Err(p) => fail!("C18:addr-make-panics", "addr_make({:?}) ({}) panicked: {}", nm, what, p),
             };
             ensure!(aa.as_str() != nm, "C18:addr-make-collision", "addr_make({:?}) returns its argument: the name {:?} and the name {:?} give the same address", nm, case.name, nm);
+            // the trait forms must agree with the Api method for such names too
+            let via_trait = match v {
+                Variant::Default => nm.into_addr_with_prefix(prefix),
+                Variant::Bech32 => nm.into_bech32_with_prefix(prefix),
+                Variant::Bech32m => nm.into_bech32m_with_prefix(prefix),
+            };
+            ensure!(via_trait == aa, "C18:trait-disagrees", "the trait form gives {:?} for the name {:?}, the Api's addr_make {:?}", via_trait, nm, aa);
             let dg = Sha256::digest(nm.as_bytes()).to_vec();
             match ref_decode(aa.as_str(), prefix, v) {
                 RefDecode::Canonical(b) => ensure!(b == dg, "C18:addr-make-payload", "addr_make({:?}) = {:?} carries {} instead of sha256(name)", nm, aa, hexs(&b)),
